@@ -530,7 +530,7 @@ func (r *runner) run() {
 		}
 		active = without(active, drop)
 	}
-	killed := 0
+	killed, toolFailures := 0, 0
 	for round := 0; ; round++ {
 		if round > len(r.ps.Targets)+8 {
 			internal("%s: the failure isolation does not converge", r.ps.Name)
@@ -625,8 +625,13 @@ func (r *runner) run() {
 				}
 			}
 			if len(errs) == 0 {
-				// compile errors carry positions; anything else (tool failure, linker) is not a verdict
-				internal("%s: go build fails without a compile error: %s", r.ps.Name, excerpt(bout, 30))
+				// compile errors carry positions; anything else (toolchain disturbed from outside,
+				// linker) is not a verdict: try again, then give the package up
+				if toolFailures++; toolFailures > 2 {
+					panic(gaveUp{fmt.Sprintf("%s: go build fails without a compile error: %s", r.ps.Name, excerpt(bout, 8))})
+				}
+				time.Sleep(10 * time.Second)
+				continue
 			}
 			_ = other
 			if len(blame) == 0 {
